@@ -25,7 +25,7 @@ type scen struct {
 	Handlers  bool   `json:"handlers"`  // streamSse: a notification handler is registered (the reader goes on after the result)
 	N         int    `json:"n"`         // calls pending when the script acts
 	Answered  int    `json:"answered"`  // calls answered completely before the fault
-	Fault     string `json:"fault"`     // none | close | reset | stall | kill | exit | closeout | http500 | http404 | linger
+	Fault     string `json:"fault"`     // none | close | reset | stall | kill | exit | closeout | http500 | http404 | errBodyStall | linger
 	Pos       string `json:"pos"`       // none | hdrPartial | hdrDone | dataPartial | dataLine | frameEnd : how much of the next answer is out
 	Off       int    `json:"off"`       // the concrete byte offset chosen for Pos (replay; ignored by the model)
 	Ctx       string `json:"ctx"`       // none | cancel | deadline | timeout (stdio: the transport's own timer)
@@ -396,6 +396,11 @@ func runHTTP(sc scen) (observation, []problem) {
 			}
 		case sc.Fault == "linger":
 			lingerAnswers(arr[sc.Answered:])
+		case sc.Fault == "errBodyStall":
+			for _, b := range arr[sc.Answered:] {
+				writeAll(b.conn, errStallHead("getErrStall"))
+			}
+			t0 = time.Now()
 		case sc.Fault == "http500" || sc.Fault == "http404":
 			status := map[string]string{"http500": "500 Internal Server Error", "http404": "404 Not Found"}[sc.Fault]
 			for _, b := range arr[sc.Answered:] {
@@ -545,7 +550,7 @@ collect:
 	}
 	if obs.Ledger.Bodies > 0 {
 		mode := map[string]string{"streamSse": "after_sse_answer", "streamJson": "after_json_answer", "sse": "after_post"}[sc.T]
-		if sc.Fault == "http500" || sc.Fault == "http404" {
+		if sc.Fault == "http500" || sc.Fault == "http404" || sc.Fault == "errBodyStall" {
 			mode = "after_http_error_status"
 		}
 		probs = append(probs, problem{fp: "calls:" + sc.transportTag() + ":connection_not_released_" + mode, what: "client connections are still checked out after Close: a response body was neither closed nor read to its end",
